@@ -10,6 +10,14 @@ NOT_BUILT = "rules designed (DESIGN.md sections 3-4) but not built yet; not clai
 
 # property -> (technique, level text, level note, design ref)
 CLAIMED = {
+ "C11": ("error-result def-use (never discarded), dominance of the program-counter store over every error return of the interpreter loop, recover-frame inventory, pool-release path conditions",
+         "Structural necessary conditions for errors reaching the nearest protected call with position intact: breaking one drops an error, misattributes its line, lets a frame other than the inventoried ones stop it, or recycles a continuation still needed by error handling.",
+         "Trusted: go/ssa. Not decided: value identity on all paths, message text, state consistency after a caught error.",
+         "DESIGN.md 3 (R-ERRFLOW), 4 (C11)"),
+ "C14": ("type-checking the repository under all seven build configurations; SSA shape checks of the noquotas manager (no calls/stores in metering methods); owner/deferred/error-path/use-after-release analysis of pool releases; sibling agreement of the two finaliser pools; constructor/destructor pairing",
+         "Structural necessary conditions: the variants compile against the same API, the no-quota variant only removes accounting, pooled objects cannot be observed after release nor released while still referenced, sibling pools agree on marking. Behavioural equality over all programs is not decided.",
+         "Trusted: go/types under each configuration, go/ssa. Not decided: cross-build behavioural equality.",
+         "DESIGN.md 3 (R-POOL, R-SIBLING build-tag part), 4 (C14)"),
  "C10": ("must-pass-through checks on the SSA CFG of the scope-exit functions, def-use checks of truncation targets, who-may-write on the compile-time height, call-site presence and guard-predicate agreement between the push and close sites",
          "Completeness of the to-be-closed plumbing: each check is a necessary condition (a scope exit without truncation, a wrong truncation target, a second writer of the height, a missing cleanup site, or a predicate mismatch each change which handlers run). Exactly-once/order over all nestings is not decided.",
          "Trusted: go/ssa. Not decided: exactly-once and reverse order over all nestings; the error argument.",
